@@ -90,6 +90,7 @@ class SolverWrapper:
     """
     # storing some defaults
     threads = 4
+    _highs_scheduler_threads = None  # the `threads` value of the most recent HiGHS run in this process
     time_limit = float('inf')
     presolve = "choose"
     log_to_console = "false"
@@ -518,6 +519,15 @@ class SolverWrapper:
         # Otherwise, we call the function with a timeout
         # Apply any queued bound updates right before solving
         self._apply_pending_bound_updates()
+
+        if self.external_solver == "highs":
+            # HiGHS sizes one process-wide task scheduler at its first run and refuses to run (status kNotset) with any other
+            # `threads` value afterwards: re-initialise the scheduler when this model asks for a different number of threads
+            # than the previous run of this process
+            threads = self.solver.getOptionValue("threads")[1]
+            if SolverWrapper._highs_scheduler_threads is not None and SolverWrapper._highs_scheduler_threads != threads:
+                highspy.Highs.resetGlobalScheduler(True)
+            SolverWrapper._highs_scheduler_threads = threads
 
         if self.time_limit == float('inf') or (not self.use_also_custom_timeout):
             self.solver.optimize()
